@@ -1,3 +1,5 @@
+# one-off helper of session 4: merges the partial results of tools/seeded_matrix_par.sh runs (files under /var/tmp)
+# with the last full matrix (commit fe82a2a) into seeded/MATRIX.txt, tagging every line with when it was last run
 import subprocess,os,glob
 old={}
 for l in subprocess.run(['git','-C','/verif','show','fe82a2a:seeded/MATRIX.txt'],capture_output=True,text=True).stdout.splitlines():
